@@ -1,4 +1,19 @@
-"""C01 — 128-bit integers: Lean models `U128.*` / `I128.*` (Model/U128.lean, Model/I128.lean), theorems Props/C01.lean."""
+"""C01 — 128-bit integers: Lean models `U128.*` / `I128.*` (Model/U128.lean, Model/I128.lean), theorems Props/C01.lean.
+
+Second tie (translator): `gossa/ssagen` regenerates lean/Generated/SSA_Num.lean (namespace `Gen`) from the typed SSA form of
+package xmath/num of the repository's working tree on every run; Props/C01Gen.lean proves that every regenerated
+definition is the corresponding function of the hand-written model, so the theorems of Props/C01.lean are re-checked
+against what the code says now."""
+import fcntl
+import json
+import os
+import re
+
+from vlib import core
+
+GOSSA = os.path.join(core.VERIF, "gossa")
+SSA_OUT = os.path.join(core.LEAN, "Generated", "SSA_Num.lean")
+GEN_PROPS = os.path.join(core.LEAN, "Props", "C01Gen.lean")
 
 
 def run(ctx):
@@ -10,7 +25,30 @@ def run(ctx):
         "divBinaryShiftThreshold is read from the source on every run (Generated/Facts.lean) and used by the model's "
         "division dispatch",
     ]
-    ctx.lean(props=["Props.C01"], drivers=["drv_c01"])
+    ctx.modelled += [
+        "translator tie: every loop-free, panic-free function of xmath/num (selected by the shape of its SSA form) is "
+        "regenerated as a Lean definition over BitVec 64 / Bool / U128 / I128 (Generated/SSA_Num.lean, written by "
+        "gossa/ssagen from the working tree on every run; math/bits calls become the same contract definitions as in "
+        "the model) and proved equal to the hand-written model function (Props/C01Gen.lean); trusted here: "
+        "golang.org/x/tools/go/ssa and the instruction-by-instruction translation in gossa/main.go",
+    ]
+    # The regenerated file is shared by every run of this check: one run at a time regenerates it and builds against it.
+    os.makedirs(os.path.join(core.VERIF, ".work"), exist_ok=True)
+    with open(os.path.join(core.VERIF, ".work", "c01gen.lock"), "w") as lk:
+        fcntl.flock(lk, fcntl.LOCK_EX)
+        gen_ok = _ssagen(ctx, ctx.repo)
+        # two separate builds/audits: a regenerated definition whose proof fails must not hide the audit of Props.C01
+        ctx.lean(props=["Props.C01"], drivers=["drv_c01"])
+        n0 = len(ctx.lean_problems)
+        if gen_ok:
+            ctx.lean(props=["Props.C01Gen"], facts=False)
+            _explain(ctx, n0)
+        else:
+            for n in core.theorem_names(GEN_PROPS):
+                ctx.theorems.append({"name": n, "axioms": None, "ok": False})
+        if ctx.repo != "/repo" and os.path.isdir("/repo/xmath/num"):
+            # leave the tracked file as generated from the reference tree (it is committed, like Generated/Facts.lean)
+            _ssagen(None, "/repo")
     # Division is proved end to end (no open obligation): dispatch, fast paths and all three kernels
     # (divmod128bin_spec, divmod128by64_spec, divmod128by128_spec) give C01.divMod_spec / C01.idivMod_spec for every
     # operand pair with a non-zero divisor.
@@ -33,6 +71,61 @@ def run(ctx):
              trivial=lambda l, o: False,
              theorem="C01.* (model = Z mod 2^128 specification); impl != model on this input")
     _paths(ctx)
+
+
+def _ssagen(ctx, repo):
+    """Delete lean/Generated/SSA_Num.lean and regenerate it from the working tree `repo`."""
+    if os.path.exists(SSA_OUT):
+        os.remove(SSA_OUT)
+    rc, out = core.sh(["go", "run", ".", repo, SSA_OUT], cwd=GOSSA, env=core.env_go(), timeout=600)
+    if ctx is None:
+        return rc == 0
+    ctx.checker_cmds.append("cd gossa && go run . <repo> ../lean/Generated/SSA_Num.lean   (regenerate the Lean "
+                            "definitions from the Go source)")
+    if rc != 0 or not os.path.exists(SSA_OUT):
+        ctx.lean_problems.append("ssagen could not translate xmath/num of the working tree: " + out[-400:])
+        return False
+    try:
+        info = json.loads(out.strip().splitlines()[-1])
+    except Exception:
+        ctx.lean_problems.append("ssagen printed no summary: " + out[-200:])
+        return False
+    have = set(core.theorem_names(GEN_PROPS))
+    ctx.extra["ssa_translated"] = info["translated"]
+    ctx.extra["ssa_skipped"] = ["%s: %s" % (k["name"], k["reason"]) for k in info["skipped"]]
+    ctx.extra["ssa_translated_without_theorem"] = [
+        n for n in info["translated"] if "C01Gen.%s_eq" % n.replace(".", "_") not in have]
+    import hashlib
+    ctx.extra["ssa_sha1"] = hashlib.sha1(open(SSA_OUT, "rb").read()).hexdigest()
+    ctx.rules.append("translator tie: %d functions of xmath/num regenerated from the source and proved equal to the "
+                     "model (Props/C01Gen.lean), %d outside the fragment (listed with reasons in coverage.ssa_skipped)"
+                     % (len(info["translated"]), len(info["skipped"])))
+    return True
+
+
+def _explain(ctx, n0):
+    """Name the theorems of Props/C01Gen.lean whose proof failed (lake reports file positions)."""
+    lines = set()
+    for p in ctx.lean_problems[n0:]:
+        for m in re.finditer(r"C01Gen\.lean:(\d+):", p):
+            lines.add(int(m.group(1)))
+    if not lines:
+        return
+    src = open(GEN_PROPS).read().split("\n")
+    names = []
+    for ln in sorted(lines):
+        k = min(ln, len(src)) - 1
+        while k >= 0 and not re.match(r"^theorem\s+(\S+)", src[k]):
+            k -= 1
+        if k >= 0:
+            n = re.match(r"^theorem\s+(\S+)", src[k]).group(1)
+            if n not in names:
+                names.append(n)
+    ctx.extra["c01gen_failed"] = names
+    print("# translator tie: the Go source no longer translates to the verified model; failing: C01Gen."
+          + ", C01Gen.".join(names))
+    ctx.lean_problems.insert(n0, "the definition regenerated from the Go source is no longer proved equal to the "
+                                 "verified model: C01Gen." + ", C01Gen.".join(names))
 
 
 def _paths(ctx):
